@@ -998,7 +998,7 @@ pub fn run_all(ctx: &mut Ctx, replay: Option<&Path>) {
     ctx.regressions(&k);
     let thorough = ctx.tier == crate::engine::Tier::Thorough;
     ctx.exhaustive(&h, if thorough { "bounds: circular swap n <= 7, translocate n <= 9, crossovers over {0,1,2} length <= 5, distinguishable parents length <= 7, permutations n <= 5" } else { "bounds: circular swap n <= 6, translocate n <= 8, crossovers over {0,1,2} length <= 4, distinguishable parents length <= 6, permutations n <= 5" }, helper_cases(thorough).into_iter());
-    ctx.random(&h, helper_strategy(), ctx.tier.pick(60_000, 600_000));
+    ctx.random(&h, helper_strategy(), ctx.tier.pick(200_000, 1_000_000));
     ctx.exhaustive(
         &k,
         "6 identifier-generic mutations instantiated with identifier A x own rate {0, 1} x {alone, next to a default-identified instance with rate 0, 1} x 2 population shapes",
@@ -1008,5 +1008,5 @@ pub fn run_all(ctx: &mut Ctx, replay: Option<&Path>) {
             })
         }),
     );
-    ctx.random(&k, comp_strategy(), ctx.tier.pick(80_000, 800_000));
+    ctx.random(&k, comp_strategy(), ctx.tier.pick(250_000, 1_200_000));
 }
